@@ -279,6 +279,9 @@ func (env *CEnv) lookupValue(name string) (Term, bool) {
 		if t, ok := env.st.ghost[name]; ok {
 			return t, true
 		}
+		if _, ok := env.f.w.ghosts[name]; ok {
+			return env.f.ghostTerm(env.st, name), true
+		}
 	}
 	return Term{}, false
 }
@@ -420,7 +423,7 @@ func (env *CEnv) index(base, ix Term) Term {
 		if m, ok := base.GoT.Underlying().(*types.Map); ok {
 			ks, vs := f.w.sortOf(m.Key(), false), f.w.sortOf(m.Elem(), false)
 			ix = env.coerceLit(ix, ks)
-			_, val, _ := f.w.mapHeaps(ks, vs)
+			_, val, _ := f.w.mapHeapsT(m, false)
 			arr := f.heapTerm(env.st, val, f.w.heapSorts[val])
 			return Term{S: "(select (select " + arr + " " + base.S + ") " + ix.S + ")", Sort: vs, GoT: m.Elem()}
 		}
@@ -550,7 +553,9 @@ func (env *CEnv) call(e *CE) Term {
 		case a.GoT != nil:
 			if m, ok := a.GoT.Underlying().(*types.Map); ok {
 				ks, vs := w.sortOf(m.Key(), false), w.sortOf(m.Elem(), false)
-				_, _, ln := w.mapHeaps(ks, vs)
+				_ = ks
+				_ = vs
+				_, _, ln := w.mapHeapsT(m, false)
 				return Term{S: "(select " + f.heapTerm(env.st, ln, w.heapSorts[ln]) + " " + a.S + ")", Sort: SInt}
 			}
 		}
@@ -560,9 +565,10 @@ func (env *CEnv) call(e *CE) Term {
 		if a.GoT != nil {
 			if m, ok := a.GoT.Underlying().(*types.Map); ok {
 				ks, vs := w.sortOf(m.Key(), false), w.sortOf(m.Elem(), false)
+				_ = vs
 				k := env.coerceLit(arg(1), ks)
-				dom, _, _ := w.mapHeaps(ks, vs)
-				return Term{S: "(select (select " + f.heapTerm(env.st, dom, w.heapSorts[dom]) + " " + a.S + ") " + k.S + ")", Sort: SBool}
+				dom, _, _ := w.mapHeapsT(m, false)
+				return Term{S: "(and (not (= " + a.S + " 0)) (select (select " + f.heapTerm(env.st, dom, w.heapSorts[dom]) + " " + a.S + ") " + k.S + "))", Sort: SBool}
 			}
 		}
 		cfail("has() needs a map-typed first argument")
